@@ -6,7 +6,8 @@ fn expect_events(s: u64, last: u64, chain: &[BlockSpec]) -> Vec<Event> {
     v.push(Event::Complete(last));
     v
 }
-/// C02 (bounded: every tip T in 0..=4, every accepted (s, e) with e up to T+2, plus "no option"):
+/// C02 (bounded: every tip T in 0..=4, every accepted (s, e) with e up to T+2, ends at every integer-width limit up to
+/// u64::MAX with low bits 0 / 1 / T-1 / T, plus "no option"):
 /// the callback sees on_start(s), exactly the blocks s..=min(e,T) ascending once each, on_complete(min(e,T))
 #[test]
 fn c02_delivered_heights_small_chains() {
